@@ -1,7 +1,7 @@
 """C01 - cell regions: every point stays in the volume of the cell that owns it."""
 import numpy as np
 
-from .. import env, t4read, oracle, geomdecide
+from .. import env, t4read, oracle, geomdecide, refsem
 from ..deck import Deck, render_expr, holds, choose_tree, demorgan, strip_compl, fmt
 from ..runner import Scn, verdict, sha, Vacuous
 
@@ -24,9 +24,13 @@ PLANES = {
     5: ('p', 1.0, 1.0, 0.0, 0.5),
 }
 RPP = (-2.0, 1.5, -1.0, 3.0, -4.0, 4.0)     # surface 6
+CURVED = {7: ('so', [4.0]), 8: ('kz', [-1.0, 0.5, 1]), 9: ('cz', [2.5]), 10: ('k/x', [1.0, 0.5, -0.5, 2.0, -1])}
+CURVED_REF = {n: refsem.mcnp_surface(mn, p) for n, (mn, p) in CURVED.items()}
+LAT = geomdecide.lattice_points(-6.0, 6.0, 15)
 SURF_CARDS = {
     1: '1 px -3', 2: '2 px 0.25', 3: '3 px 2', 4: '4 py 1', 5: '5 p 1 1 0 0.5',
     6: '6 rpp -2 1.5 -1 3 -4 4',
+    7: '7 so 4', 8: '8 kz -1 0.5 1', 9: '9 cz 2.5', 10: '10 k/x 1 0.5 -0.5 2 -1',
 }
 
 
@@ -56,6 +60,8 @@ def ref_planes(used):
     for s in used:
         if s == 6:
             out.extend(rpp_facets())
+        elif s in CURVED_REF:
+            continue
         else:
             out.append(plane_nd(s))
     return out
@@ -68,6 +74,8 @@ def make_sense(P, flip=None):
         if isinstance(lit, tuple):
             n, d = fac[lit[2] - 1]
             v = P @ n + d > 0
+        elif lit in CURVED_REF:
+            v = CURVED_REF[lit].pos(P)
         elif lit == 6:
             v = np.zeros(len(P), bool)
             for n, d in fac:
@@ -83,6 +91,7 @@ def make_sense(P, flip=None):
 
 LITS4 = [1, -1, 2, -2, 3, -3, 4, -4]
 LITS3 = [1, -1, 2, -2, 4, -4]
+LITSC = [7, -7, 8, -8, 9, -9, 10, -10, 2, -2, 4, -4]
 LITSX = [5, -5, 6, -6, ('f', 6, 1), ('f', -6, 1), ('f', 6, 4), ('f', -6, 4), 2, -2, 4, -4]
 IMPS2 = [(1, 1), (1, 0), (0, 1)]
 IMPS3 = [(1, 1, 1), (1, 0, 1), (0, 1, 1), (1, 1, 0), (0, 0, 1), (2, 0, 0)]
@@ -171,6 +180,8 @@ def scenarios(tier):
             Scn('p2-k4-dev2', b_p2(LITS4, [4], compl_inner=True, free=False), 2, 3,
                 'k=4 with inner #( ), deviation-bounded'),
             Scn('p3-k2', b_p3(LITS3, [1, 2]), None, None, 'three cells, k<=2 per cell'),
+            Scn('p2-curved-k2', b_p2(LITSC, [1, 2], compl_inner=True), None, None,
+                'sphere, cylinder, one-sheet cones (surface collections) and planes, k<=2; witnesses + lattice'),
             Scn('p4-k3', b_p4(LITS4, [1, 2, 3], free=False), 2, 3, 'explicit De Morgan partner'),
             Scn('chain', b_chain(), 2, 3, 'complement chains #n of #m'),
         ]
@@ -181,6 +192,8 @@ def scenarios(tier):
         Scn('p2-k5-dev3', b_p2(LITS4, [5], compl_inner=True, free=False), 3, 3,
             'k=5 with inner #( ), deviation-bounded'),
         Scn('p3-k3', b_p3(LITS3, [1, 2, 3], free=False), 4, 4, 'three cells, k<=3 per cell'),
+        Scn('p2-curved-k3', b_p2(LITSC, [1, 2, 3], compl_inner=False), None, None,
+            'sphere, cylinder, one-sheet cones and planes, k<=3; witnesses + lattice'),
         Scn('p3-k2', b_p3(LITS4, [1, 2]), None, None, 'three cells, k<=2 per cell'),
         Scn('p4-k3', b_p4(LITS4, [1, 2, 3]), None, None, 'explicit De Morgan partner, full'),
         Scn('chain', b_chain(), 4, 4, 'complement chains #n of #m'),
@@ -199,7 +212,17 @@ def reference_owner(st, P, flip=None):
 
 
 def evaluate(st, t4, flip=None):
-    P, info = oracle.probe_points(t4, ref_planes(st.used))
+    curved = any(s in CURVED_REF for s in st.used)
+    P, info = oracle.probe_points(t4, ref_planes(st.used), curved=curved, lattice=LAT)
+    if curved:
+        clear = np.ones(len(P), bool)
+        for s in st.used:
+            if s in CURVED_REF:
+                for f, d in CURVED_REF[s].comps:
+                    v = f(P)
+                    clear &= np.abs(v) > 1e-7 * max(1.0, np.abs(v).max())
+        P = P[clear]
+        info['complete'] = 'lattice'
     owner, cnt = reference_owner(st, P, flip)
     return P, info, owner, cnt
 
@@ -208,7 +231,7 @@ def check_state(scn, st):
     r = env.run(st.deck_text, st.options)
     if not r.ok:
         # acceptable only if the reference has no point in a cell of non-zero importance
-        P = geomdecide.witnesses(ref_planes(st.used))
+        P = np.vstack([geomdecide.witnesses(ref_planes(st.used)), LAT])
         owner, cnt = reference_owner(st, P)
         live = np.array([st.imps.get(o, 0) != 0 for o in owner]) & (cnt == 1)
         if not live.any():
